@@ -201,14 +201,22 @@ def run(ctx):
            "by int(); the sibling branches validate, this one must too)",
            mod, conv[0] if conv else b_digit)
     # dispatch ends in raise ValueError; all raises are ValueError
-    chain_end = b_digit
-    while chain_end.orelse and len(chain_end.orelse) == 1 and isinstance(chain_end.orelse[0], ast.If):
-        chain_end = chain_end.orelse[0]
-    ends_raise = bool(chain_end.orelse) and isinstance(chain_end.orelse[-1], ast.Raise) \
-        and _is_value_error(chain_end.orelse[-1])
-    ctx.ob('C19.R2', 'dispatch:else-raises-ValueError', ends_raise,
+    # (a raise reached exactly when the first character is in none of the three
+    # alphabets - whether the branches are an elif chain or early returns)
+    def outside_all(r):
+        seen = set()
+        for e, pol in facts_at(r, fn):
+            if pol and isinstance(e, ast.Compare) and len(e.ops) == 1 and isinstance(e.ops[0], ast.NotIn) \
+                    and norm(e.left) == first_var:
+                for name, want in (('digits', digits), ('upper', upper), ('lower', lower)):
+                    if is_set(e.comparators[0], want):
+                        seen.add(name)
+        return seen == {'digits', 'upper', 'lower'}
+    rejecting = [r for r in walk_no_nested(fn) if isinstance(r, ast.Raise) and _is_value_error(r)
+                 and outside_all(r)]
+    ctx.ob('C19.R2', 'dispatch:else-raises-ValueError', len(rejecting) == 1,
            'a first character outside the three alphabets is rejected with ValueError',
-           mod, chain_end)
+           mod, rejecting[0] if rejecting else b_digit)
     all_raises = [r for r in walk_no_nested(fn) if isinstance(r, ast.Raise)]
     ctx.ob('C19.R2', 'raises:only-ValueError', all(_is_value_error(r) for r in all_raises),
            'decode raises nothing but ValueError', mod, fn)
